@@ -444,8 +444,29 @@ func c09Check(p *projgen.Project, rec *ev.Recorder) []harness.Viol {
 			broken = true
 		}
 	}
+	stillBroken := func(fs []c09Failure) bool {
+		for _, f := range fs {
+			if strings.Contains(f.sig, "does-not-compile") || strings.Contains(f.sig, "not-parseable") {
+				return true
+			}
+		}
+		return false
+	}
 	if broken {
-		// attribution by experiment: is a parameter named like a handler-local identifier to blame?
+		// attribution by experiment, first candidate: two parameters of one method whose names coincide after the
+		// templates' lower-camel-casing (user_id and userId both become userId...RawPtr)
+		if apart, changed := projgen.RenameCamelTwins(p); changed {
+			if st2, fails2, _, err2 := c09Generate(apart, nil); err2 == nil && st2 == "accepted" {
+				if !stillBroken(fails2) {
+					return []harness.Viol{{Signature: "C09:does-not-compile:parameters-collide-after-camel-casing",
+						Message: "the generated code compiles once parameters whose names differ only by underscores/case are renamed apart; original failure: " + fails[0].msg}}
+				}
+				p, fails = apart, fails2 // keep looking at what is left
+			}
+		}
+	}
+	if broken {
+		// second candidate: is a parameter named like a handler-local identifier to blame?
 		if renamed, changed := projgen.RenameColliding(p); changed {
 			if st2, fails2, _, err2 := c09Generate(renamed, nil); err2 == nil && st2 == "accepted" {
 				still := false
